@@ -4,6 +4,7 @@ import sink
 import obs
 
 ID = "C12"
+TABLES = ["scalar"]      # leaf tables compared exhaustively through the hooks (coq/Check/Tables.v)
 REQUIRES = ["Agree", "C12Spec", "Truth", "ObsCheck"]
 THEOREM_REQUIRES = ["C12"]
 THEOREMS = ["C12_holds_bool", "C12_resolution"]
